@@ -16,8 +16,10 @@ range in the code shows up as a different value even where both ranges contain t
       computed here with the standard library only), the count is n.
 (3) failing => counterexample.  (1) != (2) with (3) holding => only the tie broke (no-failing-input-found).
 """
+import copy
 import datetime as D
 import decimal
+import hashlib
 import io
 import json
 import math
@@ -28,7 +30,7 @@ from string import ascii_letters
 
 from .. import core, gen, gallina as G
 
-SRCFACTS = ["time", "ints"]
+SRCFACTS = ["time", "ints", "inventory"]
 RULE = ("cases = (schema, count n in {0,1,2,7} or generate_one, stream): schemas from gen.SchemaGen (all constructs, references, "
         "namespaces, defaults, recursion through unions/arrays/maps) extended with every known logical type on its base type "
         "(int-date, int-time-millis, long-time-micros, long-(local-)timestamp-millis/micros, string-uuid, bytes-decimal, fixed-decimal "
@@ -38,7 +40,12 @@ RULE = ("cases = (schema, count n in {0,1,2,7} or generate_one, stream): schemas
         "caps, first / last union branch and enum symbol, all-zero / all-one bytes and uuids, 0.0 and 1-2^-53); raw or pre-parsed schema; "
         "schemas whose worst-case number of draws exceeds the cap are not used; for types recursive through a union the stream is planned "
         "so that the nesting depth stays below the model's fuel (see ASSUMPTIONS); non-trivial = at least one draw consumed; "
-        "distinct by (schema, n, draws)")
+        "distinct by (schema, n, draws); "
+        "corr:gen-reuse = histories on ONE live schema object (dict / list, raw): generate, edit the object IN PLACE (field added to the top-level "
+        "or a nested named record, field retyped, primitive union branch replaced; each result re-parsed to be valid), generate again, optionally "
+        "revert and generate again, the edited form first, or three calls on an unchanged object; every batch must satisfy the statement against "
+        "the CURRENT schema, equal what a never-seen deep copy of the schema yields on the same recorded draws, and equal the model; + the four "
+        "fixed histories of a growing record / nested record / one-branch union")
 TRUSTED = ["random / uuid are replaced by proxies that implement randint, random, choices, getrandbits, uuid4 themselves; "
            "CPython's own derivation of those results from the Mersenne twister is not part of the claim (the theorems hold for every stream)",
            "datetime / decimal / uuid of the standard library compute the logical view a generated value is compared with after reading back",
@@ -47,7 +54,9 @@ ASSUMPTIONS = ["the interpreter's recursion limit is not modelled: for a type re
                "union draws so that nesting stays below depth ~40 (unplanned unlucky streams may hit RecursionError in the real code)",
                "valid schemas only: unique field names, no field called '-type', decimal annotations carry a precision "
                "(parse_schema accepts the invalid forms; they are C11's business)",
-               "error_union / request schemas are not modelled"]
+               "error_union / request schemas are not modelled",
+               "the model has no notion of object identity: 'the result depends only on the schema's current content and the draws' is what "
+               "corr:gen-reuse checks against a fresh deep copy; SF_inventory pins the set of module-level mutable objects a cache would need"]
 PARTIAL = ["C20_terminates ('every well-formed schema is generated with some fuel') is REFUTED for the faithful model: C20_refuted_rec_array / "
            "C20_terminates_refuted (T{kids: array<T>} is never generated, any fuel, any stream: finding F12); the positive part is "
            "C20_terminates_ranked (acyclic reference graph: fuel = rank never runs out on any stream, and a stream of >= cost draws yields a value)",
@@ -968,13 +977,292 @@ def evaluate(ctx, entry, case, st, vals, rec, mismatch, m, corr="corr:gen"):
     return False
 
 
+# ------------------------------------------------------------------ corr:gen-reuse: one schema OBJECT across several calls
+SIG_REUSE = "C20:generate:schema-object-edited-in-place-between-calls:values-for-the-old-schema"
+ADD_TYPES = ["int", "string", "double", "boolean", {"type": "int", "logicalType": "date"}, ["null", "long"],
+             {"type": "array", "items": "string"}]
+
+
+def _nav(root, path):
+    x = root
+    for k in path:
+        x = x[k]
+    return x
+
+
+def edit_sites(s, path=(), depth=0, out=None, field_has_default=False):
+    """places of a RAW schema where an in-place edit keeps it valid: records (add a field), fields of primitive type without a
+    default (retype), unions not guarded by a field default (replace a primitive branch)"""
+    if out is None:
+        out = dict(records=[], fields=[], unions=[])
+    if isinstance(s, list):
+        if not field_has_default:
+            out["unions"].append((path, depth))
+        for i, b in enumerate(s):
+            edit_sites(b, path + (i,), depth + 1, out)
+    elif isinstance(s, dict):
+        t = s.get("type")
+        if t in ("record", "error"):
+            out["records"].append((path, depth))
+            for i, f in enumerate(s["fields"]):
+                fp = path + ("fields", i)
+                ft = f["type"]
+                if "default" not in f and (ft in gen.PRIMS or (isinstance(ft, dict) and ft.get("type") in gen.PRIMS)):
+                    out["fields"].append((fp, depth))
+                edit_sites(ft, fp + ("type",), depth + 1, out, "default" in f)
+        elif t == "array":
+            edit_sites(s["items"], path + ("items",), depth + 1, out)
+        elif t == "map":
+            edit_sites(s["values"], path + ("values",), depth + 1, out)
+    return out
+
+
+def branch_type(b):
+    if isinstance(b, str):
+        return b if b in gen.PRIMS else "named"
+    if isinstance(b, dict):
+        return b["type"] if b["type"] in gen.PRIMS + ["array", "map"] else "named"
+    return "union"
+
+
+def pick_edit(rng, S, serial):
+    """one declarative in-place edit of S: dict(op, path, ...); None when S offers no site"""
+    sites = edit_sites(S)
+    kinds = [k for k in ("records", "fields", "unions") if sites[k]]
+    if not kinds:
+        return None
+    k = rng.choice(kinds)
+    path, depth = rng.choice(sites[k])
+    if k == "records":
+        rec = _nav(S, path)
+        names = {f["name"] for f in rec["fields"]}
+        name = "added%d" % serial
+        if name in names:
+            return None
+        return dict(op="add_field", path=list(path), field={"name": name, "type": copy.deepcopy(rng.choice(ADD_TYPES))},
+                    what="field added to a %s record" % ("nested" if depth else "top-level"))
+    if k == "fields":
+        f = _nav(S, path)
+        old = f["type"]
+        oldt = old if isinstance(old, str) else old["type"]
+        new = rng.choice([t for t in ["int", "string", "double", "boolean", "bytes", "long"] if t != oldt])
+        return dict(op="set", path=list(path), key="type", value=new, what="field retyped %s -> %s" % (oldt, new))
+    u = _nav(S, path)
+    idx = [i for i, b in enumerate(u) if isinstance(b, str) and b in gen.PRIMS]
+    have = {branch_type(b) for b in u}
+    free = [t for t in gen.PRIMS if t not in have]
+    if not idx or not free:
+        return None
+    i = rng.choice(idx)
+    return dict(op="set", path=list(path), key=i, value=rng.choice(free), what="union branch %s replaced" % u[i])
+
+
+def apply_edit(S, ed):
+    """apply IN PLACE; returns the inverse edit"""
+    tgt = _nav(S, ed["path"])
+    if ed["op"] == "add_field":
+        tgt["fields"].append(copy.deepcopy(ed["field"]))
+        return dict(op="pop_field", path=ed["path"], what="field removed again")
+    if ed["op"] == "pop_field":
+        f = tgt["fields"].pop()
+        return dict(op="add_field", path=ed["path"], field=f, what="field added")
+    old = tgt[ed["key"]]
+    tgt[ed["key"]] = copy.deepcopy(ed["value"])
+    return dict(op="set", path=ed["path"], key=ed["key"], value=old, what="edit reverted")
+
+
+def reuse_step(ctx, S, rng, cap, given_feed=None, given=None):
+    """generate with the LIVE object S on planned draws; the same draws on a deep copy (a schema object never seen before).
+    -> dict for the comparison, or None when the current form is not usable (too many draws / cannot finish)"""
+    cur = copy.deepcopy(S)
+    try:
+        entry = prepare(cur, "reuse")
+    except Exception:
+        return "invalid"
+    if entry.finish == INF or (not entry.cyclic and entry.cost > cap):
+        return None
+    case = dict(mode="one" if rng.random() < 0.25 else "many", use_raw=True, schema_arg=S, feed=None)
+    case["n"] = 1 if case["mode"] == "one" else rng.choice([1, 2])
+    if given is not None:
+        case["mode"], case["n"] = given
+    feed = []
+    try:
+        for _ in range(case["n"]):
+            pl = Planner(rng, entry.named, entry.ht)
+            pl.go(entry.parsed)
+            feed.extend(pl.out)
+    except (Budget, RecursionError):
+        return None
+    case["feed"] = given_feed if given_feed is not None else feed
+    st, vals, rec, mm = run_impl(case, rng)
+    fresh_case = dict(case, schema_arg=copy.deepcopy(S), feed=list(rec))
+    st2, vals2, rec2, mm2 = run_impl(fresh_case, rng)
+    return dict(entry=entry, case=case, st=st, vals=vals, rec=rec, mismatch=mm, st2=st2, vals2=vals2, schema_now=cur)
+
+
+def reuse_evaluate(ctx, hist_json, step, m):
+    """one generate step of a history against (a) the statement on the CURRENT schema, (b) a fresh schema object, (c) the model"""
+    entry, case, st, vals, rec = step["entry"], step["case"], step["st"], step["vals"], step["rec"]
+    corr = "corr:gen-reuse"
+    ctx.count(corr, (hist_json["id"], step["index"], tuple(stream_of(rec))), nontrivial=step["index"] > 0)
+    cj = dict(hist_json, failing_step=step["index"], schema_at_that_step=step["schema_now"], mode=case["mode"], n=case["n"],
+              draws=[[k, str(n), str(d)] for k, n, d in rec])
+    if st != "ok":
+        ctx.violation(corr, cj, impl=st, model=m, signature="C20:gen-reuse:generation-" + st.split(":")[-1], found_input=True,
+                      detail="generate raised / did not finish on a schema object that was used before")
+        return False
+    t = impl_text(case, vals)
+    holds, symptom, why = predicate(entry, copy.deepcopy(step["schema_now"]), vals, case["n"], check_container=False)
+    fresh_same = step["st2"] == "ok" and impl_text(case, step["vals2"]) == t
+    if not holds:
+        stale = not fresh_same and step["index"] > 0
+        ctx.violation(corr, cj, impl=t[:1200], model=(m or "")[:1200],
+                      signature=SIG_REUSE if stale else classify(entry, vals, symptom, why), found_input=True,
+                      detail="%s; a fresh copy of the same schema yields %s on the same draws; history: %s" % (
+                          why, (impl_text(case, step["vals2"]) if step["st2"] == "ok" else step["st2"])[:300],
+                          "; ".join(hist_json["steps_text"][: step["index"] + 1])))
+        return False
+    if not fresh_same or t != m:
+        ctx.violation(corr, cj, impl=t[:1200], model=(m or "")[:1200], signature="C20:gen-reuse:differs-from-fresh-schema-object",
+                      found_input=False,
+                      detail="values for a reused schema object differ from those for a fresh copy / the model on the same draws "
+                             "(they still conform to the current schema); history: " + "; ".join(hist_json["steps_text"][: step["index"] + 1]))
+        return False
+    return True
+
+
+def run_history(ctx, raw0, script, rng, cap, feeds=None):
+    """script: list of 'gen' | edit dict | 'revert' | 'random-edit'.  Executes on ONE live object; returns (history json, gen steps)"""
+    S = copy.deepcopy(raw0)
+    steps, text, edits, undo = [], [], [], []
+    serial = 0
+    for op in script:
+        if op == "gen":
+            g = (feeds or {}).get(len(text))
+            r = reuse_step(ctx, S, rng, cap, given_feed=g[1] if g else None, given=g[0] if g else None)
+            if r == "invalid" or r is None:
+                text.append("(generate skipped: %s)" % ("schema rejected" if r == "invalid" else "too large"))
+                if r == "invalid":
+                    return None, []
+                continue
+            r["index"] = len(text)
+            text.append("generate %s n=%d" % (r["case"]["mode"], r["case"]["n"]))
+            edits.append("gen")
+            steps.append(r)
+        else:
+            if op == "revert":
+                if not undo:
+                    continue
+                ed = undo.pop()
+            elif op == "random-edit":
+                serial += 1
+                ed = pick_edit(rng, S, serial)
+                if ed is None:
+                    continue
+            else:
+                ed = op
+            inv = apply_edit(S, ed)
+            try:
+                prepare(copy.deepcopy(S), "reuse")
+            except Exception:
+                apply_edit(S, inv)          # the edit made the schema invalid: take it back, not part of the history
+                continue
+            if op != "revert":
+                undo.append(inv)
+            text.append("edit in place: " + ed.get("what", ed["op"]))
+            edits.append(ed)
+    hj = dict(kind="history", initial_schema=raw0, script=edits, steps_text=text)
+    hj["id"] = hashlib.sha1(json.dumps(hj, sort_keys=True, default=str).encode()).hexdigest()[:12]
+    return hj, steps
+
+
+REUSE_FIXED = [
+    ({"type": "record", "name": "Reading", "namespace": "demo", "fields": [{"name": "station", "type": "string"}, {"name": "temp", "type": "int"}]},
+     ["gen", dict(op="add_field", path=[], field={"name": "humidity", "type": "double"}, what="field added to a top-level record"), "gen",
+      dict(op="set", path=["fields", 1], key="type", value="string", what="field retyped int -> string"), "gen", "gen"]),
+    ({"type": "array", "items": {"type": "record", "name": "Outer", "fields": [
+        {"name": "first", "type": {"type": "record", "name": "Inner", "fields": [{"name": "a", "type": "long"}]}},
+        {"name": "second", "type": "Inner"}]}},
+     ["gen", dict(op="add_field", path=["items", "fields", 0, "type"], field={"name": "b", "type": {"type": "fixed", "name": "F4", "size": 4}},
+                  what="field added to a nested record"), "gen"]),
+    (["int"], ["gen", dict(op="set", path=[], key=0, value="string", what="union branch int replaced"), "gen", "revert", "gen"]),
+    (["null", "int", {"type": "enum", "name": "Eu", "symbols": ["A", "B"]}],
+     [dict(op="set", path=[], key=1, value="bytes", what="union branch int replaced"), "gen", "revert", "gen"]),
+]
+
+
+def run_reuse(ctx, entries, cap):
+    rng = ctx.rng
+    quick = ctx.quick()
+    hists = []
+    for raw0, script in REUSE_FIXED:
+        hists.append(run_history(ctx, raw0, script, rng, cap))
+    cands = [e for e in entries if isinstance(e.raw, (dict, list)) and e.finish != INF and e.cost <= cap // 4]
+    want = 90 if quick else 2500
+    tries = 0
+    while len(hists) < want + len(REUSE_FIXED) and tries < want * 4 and cands:
+        tries += 1
+        e = rng.choice(cands)
+        shape = rng.random()
+        if shape < 0.55:
+            script = ["gen", "random-edit", "gen"] + (["random-edit", "gen"] if rng.random() < 0.4 else [])
+        elif shape < 0.7:
+            script = ["random-edit", "gen", "revert", "gen"]            # the reverse order: the edited form is seen first
+        elif shape < 0.85:
+            script = ["gen", "random-edit", "gen", "revert", "gen"]
+        else:
+            script = ["gen", "gen", "gen"]                               # unchanged object, repeated calls
+        hj, steps = run_history(ctx, e.raw, script, rng, cap)
+        if hj is None or not steps:
+            continue
+        if "random-edit" in script and not any(isinstance(x, dict) for x in hj["script"]):
+            continue                                                     # no edit site: nothing learnt beyond corr:gen
+        hists.append((hj, steps))
+    flat = [(hj, st) for hj, steps in hists if hj for st in steps]
+    exprs = [model_expr(st["entry"], st["case"], st["rec"]) for hj, st in flat]
+    model = core.coq_eval(exprs, IMPORTS, ctx.workdir, tag="c20h", shard=max(8, len(exprs) // 30))
+    for (hj, st), m in zip(flat, model):
+        reuse_evaluate(ctx, hj, st, m)
+    kinds = {}
+    for hj, steps in hists:
+        if hj:
+            for x in hj["script"]:
+                if isinstance(x, dict):
+                    k = " ".join(x.get("what", x["op"]).split(" ")[:2])
+                    kinds[k] = kinds.get(k, 0) + 1
+    ctx.notes["reuse_histories"] = sum(1 for hj, _ in hists if hj)
+    ctx.notes["reuse_generate_steps"] = len(flat)
+    ctx.notes["reuse_edit_kinds"] = kinds
+    if flat:
+        hj, st = flat[min(len(flat) - 1, 5)]
+        ctx.sample(dict(history=hj["steps_text"], initial_schema=hj["initial_schema"]))
+
+
+def replay_history(ctx, c):
+    feeds = {c["failing_step"]: ((c["mode"], c["n"]), [(k, int(n), int(d)) for k, n, d in c["draws"]])} if "failing_step" in c else None
+    hj, steps = run_history(ctx, c["initial_schema"], c["script"], _random.Random(0), 10 ** 9, feeds=feeds)
+    if hj is None:
+        print("the history's schema is rejected now")
+        return False
+    # the recorded draws of the failing step are re-fed so that the very same values are asked for
+    ok = True
+    before = len(ctx.violations)
+    model = core.coq_eval([model_expr(st["entry"], st["case"], st["rec"]) for st in steps], IMPORTS, ctx.workdir, tag="c20hr")
+    for st, m in zip(steps, model):
+        print("step %d (%s): %s" % (st["index"], hj["steps_text"][st["index"]], (impl_text(st["case"], st["vals"]) if st["st"] == "ok" else st["st"])[:200]))
+        ok = reuse_evaluate(ctx, hj, st, m) and ok
+    for v in ctx.violations[before:]:
+        print("still fails:", v["signature"], "-", (v.get("detail") or "")[:400])
+    return ok and len(ctx.violations) == before
+
+
 def run(ctx):
     import fastavro
     import fastavro.utils as U
     rng = ctx.rng
     quick = ctx.quick()
     cap = 2500 if quick else 12000
-    n_random = 520 if quick else 9000
+    n_random = 420 if quick else 9000
     per_schema = 2 if quick else 4
 
     # ---- constants of utils.py against the model's
@@ -1072,9 +1360,14 @@ def run(ctx):
             ctx.violation("corr:model-validate", case_json(e, case, rec), impl=None, model=m, signature="C20:model-validate-rejects-model-value",
                           found_input=False, detail="the model's validate does not accept the model's generated value")
 
+    # ---- one schema object across several calls, edited in place in between
+    run_reuse(ctx, entries, cap)
+
 
 def replay(ctx, rep):
     c = rep["case"]
+    if c.get("kind") == "history":
+        return replay_history(ctx, c)
     entry = prepare(c["schema"], c.get("tag", "replay"))
     case = dict(mode=c["mode"], n=c["n"], use_raw=c["use_raw"])
     case["schema_arg"] = entry.raw if c["use_raw"] else entry.parsed
